@@ -36,7 +36,8 @@ def run(ctx):
     nmax = ctx.n(40, 120)
     steps = []   # dict(desc, rows(impl output), model_expr)
     for h in range(nhist):
-        f = F.gen_forest(rng, 1, nmax)
+        # one history in six starts from a deep binary tree (Strahler orders up to 4-5: selections by order can orphan kept nodes)
+        f = F.gen_forest(rng, 15, max(16, nmax), shape='binary') if rng.random() < 0.17 else F.gen_forest(rng, 1, nmax)
         be = str(rng.choice(['fastcore', 'fastcore', 'igraph', 'nx']))
         ctx.count('backend:' + be)
         with F.backend(be):
@@ -54,6 +55,8 @@ def run(ctx):
                 if len(x.nodes) == 0:
                     break
                 name = skelops.STRUCTURAL[int(rng.integers(len(skelops.STRUCTURAL)))]
+                if f['shape'] == 'binary' and k == 0 and rng.random() < 0.6:
+                    name = str(rng.choice(['prune_by_strahler', 'm_prune_by_strahler']))
                 op = skelops.OPS[name]
                 st, p = guarded(op.gen, rng, x)
                 if st != 'ok' or p is None:
